@@ -30,7 +30,7 @@ var (
 	outDir    = flag.String("out", "", "")
 	mod       = flag.String("mod", "github.com/spikeekips/mitum", "")
 	doTime    = flag.Bool("time", false, "route time.Now/NewTicker/... through the virtual clock")
-	chanRange = flag.String("chanrange", "", "comma separated file:line of `for range <channel>` statements")
+	chanRange = flag.String("chanrange", "", "comma separated file:line or file:expr of `for range <channel>` statements")
 	mapRange  = flag.String("maprange", "", "comma separated file:line of `for range <map>` statements to iterate in sorted key order")
 )
 
@@ -46,6 +46,7 @@ type rewriter struct {
 	usedVT   bool // vtime referenced
 	errs     []string
 	chanRng  map[int]bool
+	chanRngX map[string]bool // range expressions (source text) that are channels
 	mapRng   map[int]bool
 	mapRngX  map[string]bool // range expressions (source text) to iterate in sorted key order
 }
@@ -116,7 +117,7 @@ func instrument(abs, rel string) (string, error) {
 	if err != nil {
 		return "", err
 	}
-	r := &rewriter{fset: fset, file: file, path: abs, rel: rel, chanRng: linesFor(*chanRange, rel), mapRng: linesFor(*mapRange, rel), mapRngX: exprsFor(*mapRange, rel)}
+	r := &rewriter{fset: fset, file: file, path: abs, rel: rel, chanRng: linesFor(*chanRange, rel), chanRngX: exprsFor(*chanRange, rel), mapRng: linesFor(*mapRange, rel), mapRngX: exprsFor(*mapRange, rel)}
 	r.imports()
 	r.rewriteNode(file)
 	if len(r.errs) > 0 {
@@ -461,7 +462,7 @@ func (r *rewriter) rewriteStmt(s ast.Stmt) ast.Stmt {
 		}
 	case *ast.RangeStmt:
 		line := r.fset.Position(x.Pos()).Line
-		if r.chanRng[line] {
+		if r.chanRng[line] || (len(r.chanRngX) > 0 && r.chanRngX[exprText(x.X)]) {
 			return r.rewriteChanRange(x)
 		}
 		if r.mapRng[line] || (len(r.mapRngX) > 0 && r.mapRngX[exprText(x.X)]) {
